@@ -8,6 +8,8 @@ modes:
   else-return  `if c: ...return/raise/continue else: B` -> `if c: ...;  B`   (drop the redundant else)
   add-else     `if c: ...return;  B` at the end of a block -> `if c: ...return else: B`
   kw-format    `'..{}..'.format(a)`                      -> f-string   (simple positional cases)
+  extract-var  `x = f(g(a), b)` (first argument a call)  -> `tmp = g(a); x = f(tmp, b)`
+  inline-var   `v = e` directly followed by the only use of v -> e substituted
 The output is produced with ast.unparse (comments are lost, which no check reads).
 """
 from __future__ import annotations
@@ -110,6 +112,64 @@ class T(ast.NodeTransformer):
         return n
 
 
+def _uses(node: ast.AST, name: str) -> list[ast.Name]:
+    return [n for n in ast.walk(node) if isinstance(n, ast.Name) and n.id == name]
+
+
+class _Repl(ast.NodeTransformer):
+    def __init__(self, name: str, val: ast.expr) -> None:
+        self.name, self.val = name, val
+
+    def visit_Name(self, n: ast.Name) -> ast.AST:  # noqa: N802
+        return self.val if n.id == self.name and isinstance(n.ctx, ast.Load) else n
+
+
+def block_rewrites(fn: ast.AST, modes: set[str]) -> int:
+    count = 0
+    k = 0
+    for node in ast.walk(fn):
+        for fld in ('body', 'orelse', 'finalbody'):
+            blk = getattr(node, fld, None)
+            if not (isinstance(blk, list) and blk and isinstance(blk[0], ast.stmt)):
+                continue
+            if 'extract-var' in modes:
+                i = 0
+                while i < len(blk):
+                    st = blk[i]
+                    call = st.value if isinstance(st, (ast.Assign, ast.Expr, ast.Return)) and isinstance(getattr(st, 'value', None), ast.Call) else None
+                    if call is not None and call.args and isinstance(call.args[0], ast.Call) and _callfree(call.func) \
+                            and isinstance(call.func, (ast.Name, ast.Attribute)) and not any(isinstance(x, ast.Starred) for x in call.args):
+                        k += 1
+                        tmp = f'tmp_{k}'
+                        blk.insert(i, ast.copy_location(ast.Assign(targets=[ast.Name(id=tmp, ctx=ast.Store())], value=call.args[0], lineno=st.lineno), st))
+                        call.args[0] = ast.copy_location(ast.Name(id=tmp, ctx=ast.Load()), call.args[0])
+                        count += 1
+                        i += 1
+                    i += 1
+            if 'inline-var' in modes:
+                i = 0
+                while i + 1 < len(blk):
+                    st, nx = blk[i], blk[i + 1]
+                    if isinstance(st, ast.Assign) and len(st.targets) == 1 and isinstance(st.targets[0], ast.Name) and not isinstance(nx, (ast.For, ast.While, ast.FunctionDef, ast.With, ast.Try, ast.If)):
+                        v = st.targets[0].id
+                        tot = [u for u in _uses(fn, v)]
+                        here = [u for u in _uses(nx, v) if isinstance(u.ctx, ast.Load)]
+                        # the only other occurrence in the function is the binding itself; the use is the first thing evaluated
+                        if len(tot) == 2 and len(here) == 1 and not any(isinstance(x, (ast.Lambda, ast.ListComp, ast.GeneratorExp, ast.DictComp, ast.SetComp)) for x in ast.walk(nx)):
+                            first = next((x for x in ast.walk(nx) if isinstance(x, (ast.Name, ast.Call, ast.Attribute)) and not isinstance(getattr(x, 'ctx', None), ast.Store)), None)
+                            val = nx.value if isinstance(nx, (ast.Assign, ast.Expr, ast.Return, ast.AugAssign)) else None
+                            ok = val is not None and (val is here[0] or (isinstance(val, ast.Call) and val.args and val.args[0] is here[0] and _callfree(val.func))
+                                                      or (isinstance(val, ast.Attribute) and val.value is here[0])
+                                                      or (isinstance(val, ast.Call) and isinstance(val.func, ast.Attribute) and val.func.value is here[0]))
+                            if ok:
+                                blk[i + 1] = _Repl(v, st.value).visit(nx)
+                                del blk[i]
+                                count += 1
+                                continue
+                    i += 1
+    return count
+
+
 def main() -> None:
     src, dst, modes = sys.argv[1], sys.argv[2], set(sys.argv[3].split(','))
     if os.path.exists(dst):
@@ -123,6 +183,9 @@ def main() -> None:
                 tree = ast.parse(open(p).read())
                 t = T(modes)
                 tree = t.visit(tree)
+                if modes & {'extract-var', 'inline-var'}:
+                    for fn_ in [n for n in ast.walk(tree) if isinstance(n, (ast.FunctionDef, ast.AsyncFunctionDef))]:
+                        t.count += block_rewrites(fn_, modes)
                 ast.fix_missing_locations(tree)
                 open(p, 'w').write(ast.unparse(tree) + '\n')
                 total += t.count
